@@ -12,8 +12,6 @@ import (
 	"time"
 )
 
-var smtMu sync.Mutex
-
 type Status int
 
 const (
@@ -142,10 +140,7 @@ func solveOne(o *Obligation, idx int, cfg SolverCfg) *Result {
 		r.Solver = "syntactic"
 		return r
 	}
-	// query text generation touches shared tables of the World: serialise it
-	smtMu.Lock()
 	smt := o.SMT()
-	smtMu.Unlock()
 	if len(smt) > 1<<20 {
 		r.Status = ToolError
 		r.Output = fmt.Sprintf("VC size %d exceeds cap", len(smt))
